@@ -201,6 +201,11 @@ def runs_for(tier):
            MaxReg=2, MaxLook=1, KwChoices=setsets([['iterate'], ['get']]), OffChoices='{{}}' if q else '{{}, {"iterate"}}',
            LookOps=strs(['iterate'] if q else ['get', 'iterate'])), ['get', 'iterate']),
     ]
+    # the same type registered twice with the same handlers (second call without keywords: every handler is kept) and a
+    # changed exact flag (exact -> fuzzy must start covering subclasses, fuzzy -> exact keeps covering them)
+    runs += [('re-registration with unchanged handlers',
+              c(Ops=strs(['get']), FamNames=strs(['ownchain'] if q else ['ownchain', 'own']), RegSets=setsets(each), ReReg='TRUE',
+                MaxReg=2, MaxLook=1, KwChoices='{{"get"}, {}}', LookOps=strs(['get'])), ['get'])]
     if q:
         runs += [('lookup history', c(Ops=strs(['get', 'keys']), FamNames=strs(['chain']), RegSets=setsets([['default'], ['g2']]),
                                       MaxReg=2, MaxLook=2, KwChoices=setsets([['get', 'keys']]), LookOps=strs(['get'])), ['get', 'keys'])]
@@ -240,6 +245,9 @@ def mutant_runs():
         ('partial_reset', {'Coherent', 'HandedOut'},
          c(Mutant='"partial_reset"', Ops=strs(['get', 'iterate']), FamNames=strs(['own']), RegSets=setsets([['default']]), MaxReg=1,
            KwChoices=setsets([['iterate']]), LookOps=strs(['get', 'iterate']))),
+        ('skip_unchanged', {'Nearest', 'HandedOut'},
+         c(Mutant='"skip_unchanged"', Ops=strs(['get']), FamNames=strs(['ownchain']), RegSets=setsets([['g2']]), ReReg='TRUE', MaxReg=2,
+           MaxLook=0, KwChoices='{{"get"}, {}}', LookOps=strs(['get']))),
         ('false_falls_through', {'Nearest', 'HandedOut'},
          c(Mutant='"false_falls_through"', Ops=strs(['get', 'iterate']), FamNames=strs(['own']), RegSets=setsets([['default']]), MaxReg=1,
            MaxLook=0, KwChoices=setsets([['iterate']]), OffChoices='{{}, {"iterate"}}', LookOps=strs(['iterate']))),
